@@ -32,6 +32,9 @@ ALPHABET = list("\"'/<>()^,;:.\t") + list(" #@%+-*=\\{}$_!&|~\n\r0189aArRxX") + 
     ["\u041a", "\u212a", "\u017f", "\ufb06", "\u00a4", "\u03b1", "\u0663", "\u0669", "\u0cef", "\u0968", "\u00b2", "\u00a0", "\u2028", "\x00", "\x0c"]
 BOUNDARY = [0, 1, -1, 2, 7, 8, 9, 63, 64, 255, 256, -128, -129, -255, -256, 32767, 32768, 65535, 65536, -32768, -32769,
             -65535, -65536, 2 ** 31 - 1, 2 ** 31, 2 ** 32 - 1, 2 ** 32, -2 ** 31, -2 ** 32, 2 ** 32 + 1]
+# values for every count / size / alignment / address position (the assembler itself has to refuse the absurd ones)
+HUGE = ["1 _ 50", "1 _ 40", "1 _ 20", "1 _ 100", "4294967296.", "4294967295.", "2147483648.", "65535.", "65536.", "65537.", "177777", "200000", "100000",
+        "-1", "-65536.", "-(1 _ 50)", "0x7fffffff", "0xffffffffffff", "32768.", "1 _ 17 - 1", "(1 _ 50) / 3", "3000.", "40000."]
 SHIFT_COUNTS = [0, 1, 2, 3, 7, 8, 15, 16, 17, 31, 32, 33, 64, 100, 4096, -1, -2, -16]
 
 
@@ -439,8 +442,12 @@ class Gen:
             names = [r.choice((self.consts + self.labels + self.later_labels + ["all", "ALL", "nosuch"]) or ["all"]) for _ in range(r.choice([0, 1, 1, 2, 3]))]
             return nm + (" " + ", ".join(names) if names else "")
         if base in (".blkb", ".blkw"):
+            if self.p(0.06):
+                return f"{nm} {r.choice(HUGE)}"
             return f"{nm} {self.small(40) if self.p(0.85) else self.expr(3)}"
         if base == ".align":
+            if self.p(0.08):
+                return f"{nm} {r.choice(HUGE)}"
             return f"{nm} {self.num(r.choice([1, 2, 4, 8, 16, 3, 6, 10, 64, 0, 100])) if self.p(0.85) else self.expr(3)}"
         # .byte/.db/.word/.dw/.dword: typed integer lists
         n = r.choice([0, 1, 1, 2, 3, 5])
@@ -459,6 +466,8 @@ class Gen:
             cnt = 1
         self.repeat_budget = max(1, budget // max(cnt, 1))
         n = r.choice([0, 1, 1, 2, 3, 4])
+        if self.p(0.03):
+            return f"{nm} {r.choice(HUGE)} {{ }}"
         if depth < 7 and self.p(0.35):
             body = [self.repeat(depth + 1)] + [self.stmt(depth + 1, True) for _ in range(r.randrange(0, 2))]
         else:
@@ -698,6 +707,8 @@ class Gen:
             "backward-skip": lambda: r.choice([".link 1000\nnop\n. = 1000", ".link 1000\n. = 777", ".link 1000\n.blkb 10\n. = . - 4", ".link 1000\n. = -1", ".link 1000\n. = 200000", ".link 1000\n. = fwd\nfwd = 500"]),
             "end-variants": lambda: r.choice([".end\n)))", ".end 1", "end", ".repeat 2 { .end }\nnop", ".end\n.end", ".once\n.once", ".END\n\"", ".end ; c\n'", "nop\n.end\n.word ("]),
             "extern-misuse": lambda: r.choice([".extern 5", ".extern", ".extern all, all", ".extern a+b", ".extern \"a\"", ".extern (a)", ".extern all\nea:\neb = 1", ".extern .", ".extern r0", ".extern 1$", ".extern -a", ".extern a b"]),
+            "huge-count": lambda: self.huge_count(),
+            "include-graph": lambda: self.include_graph(),
             "big-image": lambda: r.choice([".blkb 177777\n.blkb 177777\nmake_bin", ".repeat 2 { .blkw 77777 }\nmake_wav \"big.wav\"", ".blkb 177777\n.blkb 1", ".link 177776\n.blkb 10", ".link 177777\n.byte 1, 2", ".link 177776\n.word 1, 2\nmake_bin",
                                                    ".link 0\n.blkb 177777\n.byte 1\nmake_raw"]),
             "weird-labels": lambda: r.choice([".x:", "a.b: nop", "$: nop", "_:", "9:", "8$: br 8$", "a: b: c: nop", "a:b:c", "1:2:3:", "x: = 5", "x: y = 5", "x = y: 5", "mov: nop", ".word: nop", "nop: nop\nnop", "a :: nop", "a : nop", ".:", "..:",
@@ -708,6 +719,56 @@ class Gen:
                                                            "(1)(2)", "<1>(2)", "(1)<2>", "<1><2>", "1(2)(3)", "^/1/(2)", "(1", "1)", "<1", "1>", "(1>", "<1)", "^/1", "^/1)", "(^/1)/", "a(", "a()", "a(,)", "(,)", "(;)", "<;>", "(\n1\n)", "<1\n>", "1 +\n2", "(1 + ; c\n 2)"]),
         }
         return F
+
+    def huge_count(self):
+        """a huge (or boundary, or negative) value in a count / size / alignment / address position, alone and nested"""
+        r = self.r
+        v, w = r.choice(HUGE), r.choice(HUGE)
+        body = r.choice(["", "", " nop ", " .byte 1 ", " .word . ", " .even ", f" .blkb {w} ", f" .align {w} "])
+        T = [f".align {v}", f".blkb {v}", f".blkw {v}", f".repeat {v} {{{body}}}", f".repeat {v} {{\n.repeat {w} {{{body}}}\n}}",
+             f".repeat {v} {{\n.repeat {w} {{\n.repeat {v} {{ }}\n}}\n}}", f". = {v}", f".link {v}", f".link 1000\n. = {v}", f".link {v}\n.blkb {w}",
+             f".blkb {v}\n.blkb {w}", f".blkw {v}\n.align {w}", f".byte 1\n.align {v}\n.word 2", f"x = {v}\n.blkb x\n.align x\n.repeat x {{ }}",
+             f".blkb x\n.repeat x {{ }}\nx = {v}", f".repeat x {{\n.repeat x {{ }}\n}}\nx = {v}", f".align x\nx = {v}", f". = . + {v}", f".link 1000\n. = . + {v}\n. = . + {w}",
+             f".word {v}", f".byte {v}", f".dword {v}", f".ascii <{v}>", f".rad50 <{v}>", f"mov #{v}, r0", f"mov {v}(r1), r0", f"emt {v}", f"br . + {v}", f"sob r0, . - {v}",
+             f".repeat 177777 {{\n.repeat 177777 {{{body}}}\n}}", f".repeat 400 {{\n.repeat 400 {{ }}\n}}", f".repeat 2 {{\n.repeat {v} {{ }}\n}}\n.repeat {w} {{ }}"]
+        if self.p(0.08):
+            # inserted files as the size: two blobs that together pass 64 K
+            self.fs["big1.bin"] = bytes(40000)
+            self.fs["big2.bin"] = bytes(30000)
+            return 'insert_file "big1.bin"\ninsert_file "big2.bin"\n' + r.choice(["", "make_bin", ".repeat 3 { insert_file \"big1.bin\" }"])
+        return r.choice(T)
+
+    def include_graph(self):
+        """include graphs with cycles (self, 2- and 3-cycles, with and without .once, through './' spellings) and deep chains"""
+        r = self.r
+        spell = lambda name: r.choice([name, "./" + name, "sub/../" + name, "././" + name])
+        once = lambda: r.choice(["", "", ".once\n"])
+        stuff = lambda: r.choice(["", "nop\n", ".word .\n", "lbl%d: .byte 1\n.even\n" % r.randrange(1000), ".blkb 3\n.even\n"])
+        k = r.choice(["self", "self", "two", "three", "chain", "chain", "diamond", "self-main"])
+        if k == "self":
+            self.fs["selfinc.mac"] = once() + stuff() + f'.include "{spell("selfinc.mac")}"\n' + stuff()
+            return '.include "selfinc.mac"'
+        if k == "self-main":
+            return '.include "f0.mac"'
+        if k == "two":
+            self.fs["ia.mac"] = once() + stuff() + f'.include "{spell("ib.mac")}"\n'
+            self.fs["ib.mac"] = once() + f'.include "{spell("ia.mac")}"\n' + stuff()
+            return '.include "ia.mac"'
+        if k == "three":
+            self.fs["ja.mac"] = once() + f'.include "{spell("jb.mac")}"\n' + stuff()
+            self.fs["jb.mac"] = once() + stuff() + f'.include "{spell("jc.mac")}"\n'
+            self.fs["jc.mac"] = once() + f'.include "{spell("ja.mac")}"\n'
+            return '.include "ja.mac"' + r.choice(["", '\n.include "jb.mac"'])
+        if k == "chain":
+            n = r.choice([3, 10, 31, 32, 33, 40])
+            for i in range(n):
+                self.fs[f"ch{i}.mac"] = stuff() + (f'.include "{spell("ch%d.mac" % (i + 1))}"\n' if i + 1 < n else ".word 7\n") + stuff()
+            return '.include "ch0.mac"'
+        # diamond: the same file reached twice (legal without .once: duplicate labels are its own errors)
+        self.fs["da.mac"] = '.include "dc.mac"\n'
+        self.fs["db.mac"] = '.include "dc.mac"\n'
+        self.fs["dc.mac"] = once() + ".word 1\n"
+        return '.include "da.mac"\n.include "db.mac"'
 
     def file_fault(self):
         r = self.r
@@ -838,7 +899,8 @@ class Gen:
     # ------------------------------------------------------------------ deep chains, many address-dependent sizes
     def deep(self):
         r = self.r
-        kind = r.choice(["add-chain", "add-chain", "nonlinear-chain", "nonlinear-chain", "evens", "evens", "long-expr", "nest-brackets", "nest-repeat", "label-chain", "size-chain", "mixed-aligns", "many-symbols", "many-files", "alias-chain", "alias-chain", "nonadditive-ring"])
+        kind = r.choice(["add-chain", "add-chain", "nonlinear-chain", "nonlinear-chain", "evens", "evens", "long-expr", "nest-brackets", "nest-repeat", "label-chain", "size-chain", "mixed-aligns", "many-symbols", "many-files", "alias-chain", "alias-chain", "nonadditive-ring",
+                           "dag-chain", "dag-chain", "dag-chain", "include-graph", "huge-count", "huge-count"])
         self.tags.append("deep:" + kind)
         if "deep:" + kind in self.ACYCLIC_DEEP:
             self.tags.append("acyclic")
@@ -914,6 +976,27 @@ class Gen:
             lines = [f"q{i} = {i}" for i in range(n)] + [".word " + ", ".join(f"q{r.randrange(n)}" for _ in range(20))]
             if order == "backward":
                 lines.reverse()
+        elif kind == "dag-chain":
+            # DAG-shaped definitions: each uses the previous symbol (defined later in the text) two or more times, so any evaluation
+            # strategy that does not share work is exponential in the length; values stay small (x0 in {0, 1, -1})
+            n = r.choice([20, 25, 30, 40, 50, 60])
+            forms = ["{a}*{a}", "{a} * {a} * {a}", "{a}+{a}", "{a} - {a} + {a}", "({a}+1)*({a}-1)", "{a}*{a}/1", "<{a}>*<{a}>", "{a}*{a} % 7", "-{a}*-{a}", "{a}*{b}",
+                     "({a} & {a}) | {a}", "{a} _ 0 + {a}", "{a}*{a} + {b}*{b}", "~{a} & {a}", "{a}/{a}*{a}", "{a}*{a} ! {b}"]
+            form = r.choice(forms) if self.p(0.6) else None
+            defs = [f"x0 = {r.choice(['1', '0', '-1', '1', '. - . + 1'])}"]
+            for i in range(1, n + 1):
+                f = form or r.choice(forms)
+                defs.append(f"x{i} = " + f.format(a=f"x{i - 1}", b=f"x{max(i - 2, 0)}"))
+            use = r.choice([f".word x{n}", f".byte x{n} & 1", f".blkb x{n} & 3", f"mov #x{n}, r0", f".word x{n}, x{n // 2}"])
+            lines = self.ordered(defs, use, r.choice(["backward", "backward", "shuffled", "forward"]))
+        elif kind == "include-graph":
+            lines = self.block(r.choice([0, 1, 3]), 0, False) + self.include_graph().split("\n") + self.block(r.choice([0, 1]), 0, False)
+            fs = dict(self.fs)
+            files = [("f0.mac", "\n".join(lines) + "\n")]
+            return files, fs
+        elif kind == "huge-count":
+            lines = self.block(r.choice([0, 1, 3]), 0, False) + self.huge_count().split("\n") + self.block(r.choice([0, 1, 2]), 0, False)
+            return [("f0.mac", "\n".join(lines) + "\n")], dict(self.fs)
         elif kind == "alias-chain":
             # plain aliases a0 = a1, a1 = a2, ...: one step of wait() per link, legal up to the `seen` bound of 1000
             n = r.choice([10, 63, 64, 65, 100, 300, 999])
